@@ -394,6 +394,7 @@ func (ex *Executor) enterBlock(st *State, fr *Frame, to *ssa.BasicBlock) bool {
 			fr.locals[phi.Comment] = localRef{v: nv}
 		}
 	}
+	ex.setNextIndex(fr, to)
 	loopBlocks := naturalLoop(to)
 	if ls.HasMod {
 		env := ex.envFor(st, fr)
@@ -501,7 +502,36 @@ func (ex *Executor) execPhis(st *State, fr *Frame, to, from *ssa.BasicBlock) {
 			fr.locals[phi.Comment] = localRef{v: vals[i]}
 		}
 	}
+	ex.setNextIndex(fr, to)
 	fr.idx = len(phis)
+}
+
+// setNextIndex: contracts can speak about "the index of the element loop k is about to process" as nextindex<k>,
+// whatever the shape of the loop: the hidden index of a range loop plus one, or the only counting variable of an
+// index loop (for i := c; ...; i++).
+func (ex *Executor) setNextIndex(fr *Frame, head *ssa.BasicBlock) {
+	if !isLoopHead(head) {
+		return
+	}
+	name := fmt.Sprintf("nextindex%d", loopOrdinal(head))
+	delete(fr.locals, name)
+	var counting []*ssa.Phi
+	for _, phi := range phisOf(head) {
+		v, ok := fr.vals[phi]
+		if !ok || v.T == nil {
+			continue
+		}
+		if phi.Comment == "rangeindex" {
+			fr.locals[name] = localRef{v: Val{T: Add(v.T, Num(1)), Ty: phi.Type()}}
+			return
+		}
+		if _, ok := countingPhiLowerBound(phi); ok {
+			counting = append(counting, phi)
+		}
+	}
+	if len(counting) == 1 {
+		fr.locals[name] = localRef{v: fr.vals[counting[0]]}
+	}
 }
 
 func isLoopHead(b *ssa.BasicBlock) bool {
